@@ -446,55 +446,57 @@ class Collada(object):
     def _loadNodes(self):
         libnodes = self.xmlnode.findall(self.tag('library_nodes'))
         if libnodes is not None:
-            for libnode in libnodes:
-                if libnode is not None:
-                    tried_loading = []
-                    succeeded = False
-                    first = len(self.nodes)
-                    loaded = []
-                    for pos, node in enumerate(libnode.findall(self.tag('node'))):
-                        try:
-                            N = scene.loadNode(self, node, {})
-                        except scene.DaeInstanceNotLoadedError as ex:
-                            tried_loading.append((pos, node, ex))
-                        except DaeError as ex:
-                            self.handleError(ex)
-                        except DaeRawLoadErrors as ex:
-                            self.handleRawLoadError('node', ex)
-                        else:
-                            if N is not None:
-                                self.nodes.append(N)
-                                loaded.append((pos, N))
-                                succeeded = True
-                    while len(tried_loading) > 0 and succeeded:
-                        succeeded = False
-                        next_tried = []
-                        for pos, node, ex in tried_loading:
-                            try:
-                                N = scene.loadNode(self, node, {})
-                            except scene.DaeInstanceNotLoadedError as ex:
-                                next_tried.append((pos, node, ex))
-                            except DaeError as ex:
-                                self.handleError(ex)
-                            except DaeRawLoadErrors as ex:
-                                self.handleRawLoadError('node', ex)
-                            else:
-                                if N is not None:
-                                    self.nodes.append(N)
-                                    loaded.append((pos, N))
-                                    succeeded = True
-                        tried_loading = next_tried
-                    ordered = sorted(loaded, key=lambda pn: pn[0])
-                    if ordered != loaded:
-                        # nodes loaded in a retry pass keep their place in the document
-                        self.nodes = list(self.nodes)[:first] + [N for pos, N in ordered]
-                    for pos, node, ex in tried_loading:
-                        # the node instantiates a node that never loaded
-                        # (undefined, or part of a cycle of instance_nodes)
-                        try:
-                            raise DaeBrokenRefError(ex.msg)
-                        except DaeBrokenRefError as brokenref:
-                            self.handleError(brokenref)
+            # the nodes of all <library_nodes> elements form one pool: a node may
+            # instantiate a node that is defined in a later element
+            allnodes = [node for libnode in libnodes if libnode is not None
+                        for node in libnode.findall(self.tag('node'))]
+            tried_loading = []
+            succeeded = False
+            first = len(self.nodes)
+            loaded = []
+            for pos, node in enumerate(allnodes):
+                try:
+                    N = scene.loadNode(self, node, {})
+                except scene.DaeInstanceNotLoadedError as ex:
+                    tried_loading.append((pos, node, ex))
+                except DaeError as ex:
+                    self.handleError(ex)
+                except DaeRawLoadErrors as ex:
+                    self.handleRawLoadError('node', ex)
+                else:
+                    if N is not None:
+                        self.nodes.append(N)
+                        loaded.append((pos, N))
+                        succeeded = True
+            while len(tried_loading) > 0 and succeeded:
+                succeeded = False
+                next_tried = []
+                for pos, node, ex in tried_loading:
+                    try:
+                        N = scene.loadNode(self, node, {})
+                    except scene.DaeInstanceNotLoadedError as ex:
+                        next_tried.append((pos, node, ex))
+                    except DaeError as ex:
+                        self.handleError(ex)
+                    except DaeRawLoadErrors as ex:
+                        self.handleRawLoadError('node', ex)
+                    else:
+                        if N is not None:
+                            self.nodes.append(N)
+                            loaded.append((pos, N))
+                            succeeded = True
+                tried_loading = next_tried
+            ordered = sorted(loaded, key=lambda pn: pn[0])
+            if ordered != loaded:
+                # nodes loaded in a retry pass keep their place in the document
+                self.nodes = list(self.nodes)[:first] + [N for pos, N in ordered]
+            for pos, node, ex in tried_loading:
+                # the node instantiates a node that never loaded
+                # (undefined, or part of a cycle of instance_nodes)
+                try:
+                    raise DaeBrokenRefError(ex.msg)
+                except DaeBrokenRefError as brokenref:
+                    self.handleError(brokenref)
 
     def _loadScenes(self):
         """Load scene library."""
